@@ -153,7 +153,7 @@ func (ex *Exec) frameObligations(ct *Contract, entry, out *State) {
 	// later (a write to a component the function did not touch before) is then judged like a baseline one
 	ex.addOblig(&Obligation{Name: ct.Key() + "/frame:(declared)", Kind: "frame", Fn: ct.Key(), Goal: f.True(), PC: out.pc})
 	for _, n := range names {
-		if strings.HasPrefix(n, "L.") || strings.HasPrefix(n, "IT.") || listed(n) {
+		if strings.HasPrefix(n, "L.") || strings.HasPrefix(n, "IT.") || strings.HasPrefix(n, "G.") || listed(n) {
 			continue
 		}
 		s := ex.compSort[n]
